@@ -251,6 +251,8 @@ pub fn check(data: &[u8], check_ranges: bool) -> Report {
                     (1, &[(0x0080, 0x00FF)]),
                     (2, &[(0x0100, 0x017F)]),
                     (3, &[(0x0180, 0x024F)]),
+                    (7, &[(0x0370, 0x03FF)]),
+                    (9, &[(0x0400, 0x04FF), (0x0500, 0x052F), (0x2DE0, 0x2DFF), (0xA640, 0xA69F)]),
                     (10, &[(0x0530, 0x058F)]),
                     (11, &[(0x0590, 0x05FF)]),
                     (24, &[(0x0E00, 0x0E7F)]),
@@ -258,6 +260,10 @@ pub fn check(data: &[u8], check_ranges: bool) -> Report {
                     (33, &[(0x20A0, 0x20CF)]),
                     (35, &[(0x2100, 0x214F)]),
                     (37, &[(0x2190, 0x21FF), (0x27F0, 0x27FF), (0x2900, 0x297F), (0x2B00, 0x2BFF)]),
+                    (38, &[(0x2200, 0x22FF), (0x2A00, 0x2AFF), (0x27C0, 0x27EF), (0x2980, 0x29FF)]),
+                    (45, &[(0x25A0, 0x25FF)]),
+                    (48, &[(0x3000, 0x303F)]),
+                    (62, &[(0xFB00, 0xFB4F)]),
                     (51, &[(0x31F0, 0x31FF), (0x30A0, 0x30FF)]),
                     (49, &[(0x3040, 0x309F)]),
                     (60, &[(0xE000, 0xF8FF)]),
